@@ -18,3 +18,15 @@
 pub use crate::path::manager::verif::{
     CachedPathInfo, FetchResult, Issue, MockFetcher, PathSetDriver, VerifConfig,
 };
+
+/// DNS TXT address records: the private payload parser and record resolution of
+/// `resolver::txt`.
+pub mod txt {
+    pub use crate::resolver::txt::verif::{parse_txt_payload, resolve_txt_records};
+}
+
+/// A [`PathUnawareUdpScionSocket`](crate::stack::PathUnawareUdpScionSocket) over an in-memory
+/// underlay, with the SCMP handlers wired as the stack wires them.
+pub mod socket {
+    pub use crate::stack::verif::{MemUnderlay, ScmpErrorLog, udp_socket_over};
+}
